@@ -102,6 +102,10 @@ def broadcastAt (dflt : V) : Unpacked V → List Nat → V
 /-- the weighted mean a distribution with (intensity) weights `ws` defines for member results `fs` -/
 def weightedMean (ws fs : List Rat) : Rat := (List.zipWith (· * ·) ws fs).sum / ws.sum
 
+/-- `_unpack_distributions` for an averaged (`ensemble_mean`) distribution (fix 4ef047d8): the amplitude weights are
+rescaled to unit mean square, `w * sqrt(n / Σ w²)`; on the intensity weights `u = w²` this is `u * n / Σ u` -/
+def normalizeMeanWeights (us : List Rat) : List Rat := us.map fun u => u * (us.length : Rat) / us.sum
+
 /-- composed ensemble transforms (`Probe._calculate_array`): every transform prepends its ensemble axes to those present -/
 def applyAll {α : Type} (base : List α) (ts : List (List α)) : List α := ts.foldl (fun acc t => t ++ acc) base
 
